@@ -147,7 +147,6 @@ Section Proofs2.
         * split; [|discriminate].
           intros v0 E0. subst out.
           destruct e; try (apply bind_inv in Hev as [(tr1 & x & Hx & Hk)|(x & Hx & Ho)]; [inv Hk; reflexivity | discriminate]).
-          destruct (w_unbound W ref); [destruct (w_genv W ref)|]; inv Hev; reflexivity.
     - (* EBin *)
       destruct Hwf as [Hwl Hwr].
       destruct op; cbn [eval is_sem_binop] in Hev; try discriminate;
